@@ -54,6 +54,11 @@ def sentinel_rule(ctx, rid):
                 t = nd.ast.targets[0]
                 if isinstance(t, ast.Tuple) and len(t.elts) == 2 and norm(t.elts[1]) == norm(v):
                     src = nd
+        if src is None and isinstance(v, ast.Name):
+            for st_ in ast.walk(m.node):
+                if isinstance(st_, ast.Assign) and isinstance(st_.value, ast.Call) and callee_name(ctx, m, st_.value) != CROP + ".calc_clean_up_default_res" and \
+                        any(isinstance(x_, ast.Name) and x_.id == v.id for t_ in st_.targets for x_ in ast.walk(t_)):
+                    raise AnalysisError("idiom changed: the Reaper's %s in %s comes from `%s`, not directly from calc_clean_up_default_res" % (pname, m.qualname, norm(st_.value)[:60]))
         if src is None:
             rr.bad(ctx.finding(rid, m, c, "the Reaper's %s=%s is not the placeholder decided by calc_clean_up_default_res" % (pname, norm(v)), construct="reaper-default-provenance"), "%s default provenance" % m.name)
         else:
